@@ -478,6 +478,12 @@ func RunC07(c *Ctx) {
 		}
 		runHistory(c, "runHistory", idx, nil)
 	}
+	// records at the capacity of a block that become the first record of a compacted table
+	for idx := 0; idx < 24; idx++ {
+		if c.Mine(idx) {
+			runCapacityWindow(c, idx)
+		}
+	}
 }
 
 func sortedKeys(m map[string]bool) []string {
